@@ -375,7 +375,15 @@ void apply(Inst &in, CaseCtx &cx, int op, uint8_t a, uint8_t b, int K, size_t ma
         break;
     }
     case SWAP: {
-        if (in.nlists < 2) { CNT("noop.swap"); TRACE("swap noop"); return; }
+        if (in.nlists < 2) {
+            // "over one or more lists": with one list the only swap there is exchanges the list with itself; the
+            // reference sequence stays what it was, and push_back must still append after the true last element
+            TRACE("%s L%d.swap L%d (itself, %zu)", in.tag, li, li, m.size());
+            LIB(cstl_slist_swap(l, l));
+            CNT(m.empty() ? "class.swap.self_empty" : "class.swap.self_nonempty");
+            *pred_out = P_SWAP;
+            break;
+        }
         int si = (li + 1 + (b % (in.nlists - 1))) % in.nlists;
         LIB(cstl_slist_swap(l, &in.sl[si]));
         TRACE("%s L%d.swap L%d (%zu <-> %zu)", in.tag, li, si, m.size(), in.model[si].size());
@@ -425,7 +433,7 @@ void apply(Inst &in, CaseCtx &cx, int op, uint8_t a, uint8_t b, int K, size_t ma
         break;
     }
     audit(in, li, obs, pfx);
-    if (op == CONCAT || op == SWAP) {
+    if ((op == CONCAT || op == SWAP) && in.nlists >= 2) {
         int si = (li + 1 + (b % (in.nlists - 1))) % in.nlists;
         audit(in, si, obs, pfx);
     }
